@@ -596,7 +596,7 @@ func runMctsSteps(c *ctx) {
 				if samples < 2 && i%7 == 3 {
 					samples++
 					f := strings.SplitN(l, " | ", 3)
-					c.printf("SAMPLE mcts-steps %s -> %s\n", cases[i].desc(), f[1])
+					c.printf("SAMPLE %s -> %s\n", cases[i].desc(), f[1])
 				}
 			}
 			c.printf("%s\n", l)
